@@ -142,7 +142,7 @@ let edits_line line = match al (sx_parse line) with
       | _ -> failwith "edit") eds in
     let orc = List.map (fun o -> match al o with [] -> None | [A a; A b] -> Some (nat_of_int a, nat_of_int b) | _ -> failwith "orc") orc in
     let (((d', ap), sk), out) = apply_edits (to_doc d) (to_str au) (to_str ts) eds orc in
-    Printf.sprintf "%d %d %d|%s" (int_of_nat ap) (int_of_nat sk) (if out then 1 else 0) (p_doc d')
+    Printf.sprintf "%d %d %d|%s" (int_of_nat ap) (int_of_nat sk) (int_of_nat out) (p_doc d')
   | _ -> "ERR"
 let extract_line line = match al (sx_parse line) with
   | [A c; d] -> show (extract_u (c <> 0) (to_doc d))
